@@ -318,14 +318,16 @@ def export_save(save: data.Save) -> vsp.Save:
         return vsp.Save(mode=mode)
     if isinstance(save.targ, Signal):
         signal = save.targ.name
-    elif isinstance(save.targ, List[Signal]):
-        signal = ",".join([s.name for s in save.targ])
     elif isinstance(save.targ, str):
         signal = save.targ
-    elif isinstance(save.targ, List[str]):
-        signal = ",".join([s for s in save.targ])
+    elif isinstance(save.targ, (list, tuple)):
+        # A list of `Signal`s, or of their names
+        names = [s.name if isinstance(s, Signal) else s for s in save.targ]
+        if not all(isinstance(n, str) for n in names):
+            raise TypeError(f"Invalid Save target {save.targ}")
+        signal = ",".join(names)
     else:
-        raise TypeError
+        raise TypeError(f"Invalid Save target {save.targ}")
     return vsp.Save(signal=signal)
 
 
